@@ -299,17 +299,17 @@ def Transaction : Nat → Bool → Frag → Rd.R
       let sl_ref := r12
       let t13 := Val.unit
       let (t14, sl_ref) ← Rd.loadBit sl_ref
-      let (t16, cell_slice, sl_ref) ← (if (Rd.truthy t14) then do
+      let (t16, sl_ref) ← (if (Rd.truthy t14) then do
             let (t15, sl_ref) ← Rd.viaRef MessageAny sl_ref
-            pure (t15, cell_slice, sl_ref)
-          else pure (t13, cell_slice, sl_ref))
+            pure (t15, sl_ref)
+          else pure (t13, sl_ref))
       let (t17, sl_ref) ← Rd.loadDict 15 (Rd.viaRef MessageAny) sl_ref
-      let (t20, cell_slice, sl_ref) ← (if (!Rd.veq t17 Val.unit) then do
+      let (t20) ← (if (!Rd.veq t17 Val.unit) then do
             let t18 ← Rd.dictValuesSorted t17
-            pure (t18, cell_slice, sl_ref)
+            pure (t18)
           else do
             let t19 := (Rd.list [])
-            pure (t19, cell_slice, sl_ref))
+            pure (t19))
       let (t21, cell_slice) ← CurrencyCollection sp cell_slice
       let (t22, cell_slice) ← Rd.viaRef Src.HashUpdate cell_slice
       let (t23, cell_slice) ← Rd.viaRef (TransactionDescr (Transaction fuel)) cell_slice
